@@ -92,7 +92,9 @@ func TestC05(t *testing.T) {
 		st := store.New()
 		content := gen.Content(rr, []string{"rand", "rand", "zero", "period3"}[rr.Intn(4)], n)
 		var l ipld.Link
-		withWidth(w, func() { l, _, _ = builder.BuildUnixFSFile(bytes.NewReader(content), fmt.Sprintf("size-%d", k), st.LinkSystem(false)) })
+		withWidth(w, func() {
+			l, _, _ = builder.BuildUnixFSFile(bytes.NewReader(content), fmt.Sprintf("size-%d", k), st.LinkSystem(false))
+		})
 		fixtures = append(fixtures, mkFixture(fmt.Sprintf("shape-w%d-k%d-n%d-%d", w, k, n, i), st, linkCid(l), content))
 	}
 	for _, f := range fixtures {
